@@ -1,1 +1,2 @@
 pub mod drive;
+pub mod reverse;
